@@ -396,10 +396,15 @@ theorem step_slot (ctx : Ctx) (attrs : List Attr) (kids : List Node)
   intro st
   refine conv_of_succ (fun f => (monoAt_all W f).slot ctx st attrs kids) (Conv.halts ?_)
   simp only [evalSlot]
-  have hk : Conv (fun f => if (!kids.isEmpty) = true then evalList W f ctx st kids else Res.ok ([], st)) := by
-    refine conv_ite _ (fun _ => ih (Call.list ctx kids) ?_ st) (fun _ => conv_const _ (ok_ne_fuel _))
-    right; simp only [Call.depth, Call.ctx, Call.meas]; omega
-  obtain ⟨slots, chain⟩ := ctx
+  have hk : Conv (fun f => match ctx.inherited.lookup (if getAttr attrs (S "name") == [] then S "default" else getAttr attrs (S "name")) with
+      | some content => Res.ok (content.nodes, st)
+      | none => if (!kids.isEmpty) = true then evalList W f ctx st kids else Res.ok ([], st)) := by
+    cases ctx.inherited.lookup (if getAttr attrs (S "name") == [] then S "default" else getAttr attrs (S "name")) with
+    | some content => exact conv_const _ (ok_ne_fuel _)
+    | none =>
+      refine conv_ite _ (fun _ => ih (Call.list ctx kids) ?_ st) (fun _ => conv_const _ (ok_ne_fuel _))
+      right; simp only [Call.depth, Call.ctx, Call.meas]; omega
+  obtain ⟨slots, chain, inherited⟩ := ctx
   cases slots with
   | nil => exact hk
   | cons sc outer =>
